@@ -32,6 +32,9 @@ fn run(a: &[String]) -> String {
         "frame_depth" => scenarios::frame_depth(&a[1], &a[2]),
         "handler_flag" => scenarios::handler_flag(&a[1], a[2] == "true"),
         "has_storage_layer" => scenarios::has_storage_layer(&a[1]),
+        "reward_paid" => scenarios::reward_paid(&a[1]),
+        "selfdestruct_sum" => scenarios::selfdestruct_sum(),
+        "reimburse_exact_gas" => scenarios::reimburse_exact_gas(),
         "inspector_balance" => scenarios::inspector_balance(),
         "evm_leak" => scenarios::evm_leak(&a[1]),
         "transfer_sum" => scenarios::transfer_sum(&a[1]),
